@@ -80,8 +80,9 @@ QUICK_TIMEOUT = 900
 OVERRIDES = [
     # (regex, dict)
     (r'^c01_long_indent_contract_sampled$', dict(bounded='concrete lengths 81, 82, 128, 160')),
-    (r'^c01_long_indent_contract_enumerated$', dict(bounded='every concrete length 81..=160', tier='thorough', timeout=1800)),
-    (r'^c01_get_indent_contract$', dict(bounded='len <= 160; modular in long_indent, whose contract is checked for sampled/enumerated lengths only')),
+    (r'^c01_long_indent_contract_enumerated$', dict(bounded='every concrete length 81..=160', tier='thorough', timeout=1800,
+                                                      kind='attempt')),  # measured: CBMC runs out of memory (10 GB) after ~7 min
+    (r'^c01_get_indent_contract$', dict(bounded='len <= 160; modular in long_indent, whose contract is checked for four sampled lengths only')),
     (r'^c28_get_list_shape$', dict(bounded='lists of at most 2 elements', functions=['get_list'])),
     (r'^c28_index_of$', dict(functions=['index_of'])),
     (r'^c01_number_into_integer$', dict(functions=['Number::into_integer'])),
@@ -138,7 +139,7 @@ FILE_ASSUMPTIONS = {
     'colors.rs': [DEG_MOD], 'convert.rs': [DEG_MOD], 'hsla.rs': [DEG_MOD], 'hwba.rs': [DEG_MOD],
     'list.rs': ['std::fmt::format stubbed to return an empty String in c28_index_of (error TEXT unchecked, error PRESENCE checked)'],
     'cssbuf.rs': ['format::long_indent replaced at CssBuf call sites by its contract (long_indent_by_contract); the contract itself is '
-                  'checked by c01_long_indent_contract_* for sampled (quick) / enumerated 81..=160 (thorough) lengths only'],
+                  'checked by c01_long_indent_contract_sampled for the lengths 81, 82, 128, 160 only (the enumerated 81..=160 variant is a thorough-tier attempt that runs out of memory)'],
     'format.rs': ['format::long_indent replaced in c01_get_indent_contract by its contract; see c01_long_indent_contract_*'],
 }
 
